@@ -647,6 +647,9 @@ func (h *H) opRange(r *rng, v []byte) {
 	} else {
 		h.chSpec.Tag("range-outside-numVal-fragment")
 	}
+	if impl != "panic" { // every range, inside the fragment or not: the Spec leaf under the ParseFloat reading
+		h.chSpec.Add(fmt.Sprintf("specleafw %s %s %s", t, hx(v), numTable(strs...)), "ok "+vh.B(ok), r.from != nil || r.to != nil, "leaf=rangeWith", ends)
+	}
 	want := refRange(r, v)
 	h.orRange.Case(req, r.from != nil || r.to != nil, ends, "match="+vh.B(want))
 	if impl != "panic" && ok != want || impl == "panic" {
@@ -793,7 +796,7 @@ func main() {
 	h.chSearch = vh.NewChannel("pattern.search", "pattern.Search vs SV.Pattern.search over simple providers (ordered and not) and real token.Provider over hand-built tables; exhaustive small dictionaries, random larger; non-trivial = >1 token and non-empty answer")
 	h.chActive = vh.NewChannel("active.find", "real frac.TokenList (NewActiveTokenList + Append in several batches, two fields) FindPattern vs SV.Pattern.activeFind on the (tid, value) pairs read back from the list; small exhaustive and random dictionaries, literal / wildcard / range tokens; non-trivial = non-empty answer")
 	h.chProvider = vh.NewChannel("provider.get", "token.Provider.GetToken call sequences (ascending, descending, random jumps - exercising the cached-block fast path and the binary search) over hand-built tables vs SV.Pattern.providerGetTokens; all layouts of small dictionaries, random larger; non-trivial = more than one block")
-	h.chSpec = vh.NewChannel("spec.leaf", "the real pattern package (literalSearch/wildcardSearch.check, range searcher check) vs the SHARED Spec's Leaf.valMatch (Spec/Store.lean: globMatch, bytesLt/Le, numVal): every pattern over {a,b,*} x every token over {a,b} up to the length bound; ranges on the fragment where ParseFloat and Spec.numVal agree (every string involved is a decimal integer of <= 15 digits or is rejected by ParseFloat); non-trivial = wildcard pattern or a given range end")
+	h.chSpec = vh.NewChannel("spec.leaf", "the real pattern package (literalSearch/wildcardSearch.check, range searcher check) vs the SHARED Spec's Leaf.valMatch (Spec/Store.lean: globMatch, bytesLt/Le, numVal): every pattern over {a,b,*} x every token over {a,b} up to the length bound; ranges (a) against valMatch on the fragment where ParseFloat and Spec.numVal agree (every string involved is a decimal integer of <= 15 digits or is rejected by ParseFloat) and (b) ALL range cases against Leaf.valMatchWith pf (Spec/StoreNum.lean) with pf = the same ParseFloat key table the harness gives the model; non-trivial = wildcard pattern or a given range end")
 	h.chSelect = vh.NewChannel("table.select", "token.Table.SelectEntries vs SV.Pattern.selectEntries: every sorted dictionary over a small universe in every block layout x hints; non-trivial = >1 block and non-empty hint")
 	h.chSealed = vh.NewChannel("sealed.search", "sealedTokenIndex.GetTIDsByTokenExpr over a hand-built table with pre-loaded blocks vs SV.Pattern.sealedSearch; every dictionary <= 6 tokens over a small universe in every block layout; non-trivial = >1 block and non-empty answer")
 	h.orGlob = vh.NewOracle("glob.property", "for every well-formed term list: check(token) == reference glob; non-trivial = wildcard pattern")
@@ -1277,6 +1280,37 @@ func (h *H) genSealed() {
 			}
 			for _, t := range toks {
 				h.opSealed(t, base, blocks, phys)
+			}
+		}
+	})
+	// numeric and text ranges over dictionaries holding the same numbers in several spellings (a hint derived from
+	// the spelling of the range ends must not drop "+1.7" or "01.75" from [1.5 TO 1.9]); all layouts
+	numUni := []string{"+1.7", "-3", "01.75", "1.5", "1.7", "1.9", "17e-1", "2", "a1", "ab"}
+	sort.Strings(numUni)
+	str := func(s string) *string { return &s }
+	var rtoks []tok
+	for _, e := range [][2]*string{{str("1.5"), str("1.9")}, {str("1.5"), nil}, {nil, str("1.9")}, {str("1"), str("2")}, {str("1.5"), str("1a")},
+		{str("a"), str("ab")}, {str("1.7"), str("1.7")}, {str("-5"), str("1.6")}, {str("1e0"), str("1e1")}, {str("0x1"), str("2")}} {
+		for inc := 0; inc < 4; inc++ {
+			rtoks = append(rtoks, tok{r: &rng{from: e[0], to: e[1], incFrom: inc&1 != 0, incTo: inc&2 != 0}})
+		}
+	}
+	nsub := 0
+	subsets(numUni, 10, func(d [][]byte) {
+		if len(d) < 2 || len(d) > o.Pick(5, 6) {
+			return
+		}
+		nsub++
+		if !o.Thorough() && nsub%3 != 0 {
+			return
+		}
+		for mask := 0; mask < 1<<(len(d)-1); mask++ {
+			blocks := splitAll(d, mask)
+			phys := make([]bool, len(blocks))
+			for _, t := range rtoks {
+				if (mask+len(d))%2 == 0 || t.r.incFrom == t.r.incTo {
+					h.opSealed(t, uint32(1+mask%3), blocks, phys)
+				}
 			}
 		}
 	})
